@@ -99,6 +99,7 @@ class Server:
         self.daemon = daemon
         self.dash_m = dash_m
         self.second_bind = second_bind              # a second listener (unix socket) on which nothing ever arrives
+        self.cli_loglevel = "info"                  # the --log-level of the command line (None: leave it to the configuration file)
         self.proc = None
         self.master = None
         with open(os.path.join(self.dir, "launch.py"), "w") as fh:
@@ -122,7 +123,7 @@ class Server:
         env["PYTHONPATH"] = str(vlib.REPO)
         env.pop("GUNICORN_CMD_ARGS", None)
         env["PYTHONDONTWRITEBYTECODE"] = "1"
-        args = ([PY, "-m", "gunicorn"] if self.dash_m else [PY, "launch.py"]) + ["-c", self.conf, "-b", self.bind_arg(), "--log-file", self.log, "--log-level", "info"]
+        args = ([PY, "-m", "gunicorn"] if self.dash_m else [PY, "launch.py"]) + ["-c", self.conf, "-b", self.bind_arg(), "--log-file", self.log] + (["--log-level", self.cli_loglevel] if self.cli_loglevel else [])
         if self.second_bind:
             args += ["-b", "unix:" + os.path.join(self.dir, "g2.sock")]
         if self.pidfile:
